@@ -240,6 +240,26 @@ def run(pid, tier):
         {"operands": [act("qfloat8_e4m3fn", scale=0.05), act("qfloat8_e4m3fn", scale=0.05)], "steps": [{"op": "lt", "args": [{"reg": 0}, {"reg": 1}]}]},
         {"operands": [act(scale=0.05), act(scale=0.05)], "steps": [{"op": "lt", "args": [{"reg": 0}, {"reg": 1}]}]},
         {"operands": [act()], "steps": [{"op": "copy_into_plain", "args": [{"reg": 0}]}]},
+        # a 0-dim quantized tensor (an element of a 1-D activation) as a multiplicand, on either side and against per-axis / plain operands
+        {"operands": [{"kind": "qact", "qtype": "qint8", "shape": [6], "dtype": "float32"}, {"kind": "qact", "qtype": "qint8", "shape": [5], "dtype": "float32"}],
+         "steps": [{"op": "index1d", "args": [{"reg": 1}, {"lit": 2}]}, {"op": "mul_tensor", "args": [{"reg": 0}, {"reg": 2}]}]},
+        {"operands": [{"kind": "qact", "qtype": "qint8", "shape": [6], "dtype": "float32"}, {"kind": "qact", "qtype": "qfloat8_e4m3fn", "shape": [5], "dtype": "float32"}],
+         "steps": [{"op": "index1d", "args": [{"reg": 1}, {"lit": 4}]}, {"op": "mul_tensor", "args": [{"reg": 2}, {"reg": 0}]}]},
+        {"operands": [{"kind": "qweight", "qtype": "qint8", "shape": [4, 6], "dtype": "float32", "axis": 0}, {"kind": "qact", "qtype": "qint8", "shape": [5], "dtype": "float32"}],
+         "steps": [{"op": "index1d", "args": [{"reg": 1}, {"lit": 0}]}, {"op": "mul_tensor", "args": [{"reg": 0}, {"reg": 2}]}]},
+        {"operands": [{"kind": "plain", "shape": [3, 4], "dtype": "float32"}, {"kind": "qact", "qtype": "qint8", "shape": [5], "dtype": "float32"}],
+         "steps": [{"op": "index1d", "args": [{"reg": 1}, {"lit": 1}]}, {"op": "mul_tensor", "args": [{"reg": 0}, {"reg": 2}]}]},
+        {"operands": [{"kind": "qact", "qtype": "qint8", "shape": [6], "dtype": "float16"}, {"kind": "qact", "qtype": "qint8", "shape": [5], "dtype": "float16"}],
+         "steps": [{"op": "index1d", "args": [{"reg": 1}, {"lit": 3}]}, {"op": "div_tensor", "args": [{"reg": 0}, {"reg": 2}]}]},
+        # transpose whose two dims name the same dimension (the identity) on per-axis and per-tensor matrices
+        {"operands": [{"kind": "qweight", "qtype": "qint8", "shape": [4, 6], "dtype": "float32", "axis": 0}], "steps": [{"op": "transpose_dd", "args": [{"reg": 0}, {"lit": 0}]}]},
+        {"operands": [{"kind": "qweight", "qtype": "qint8", "shape": [4, 6], "dtype": "float32", "axis": -1}], "steps": [{"op": "transpose_dd", "args": [{"reg": 0}, {"lit": 1}]}]},
+        {"operands": [{"kind": "qweight", "qtype": "qfloat8_e4m3fn", "shape": [5, 5], "dtype": "float32", "axis": 0}], "steps": [{"op": "transpose_dd", "args": [{"reg": 0}, {"lit": -1}]}]},
+        {"operands": [act()], "steps": [{"op": "transpose_dd", "args": [{"reg": 0}, {"lit": 1}]}]},
+        # copies own their payload
+        {"operands": [act()], "steps": [{"op": "to_dtype", "args": [{"reg": 0}, {"lit": "float16"}]}]},
+        {"operands": [{"kind": "qweight", "qtype": "qint8", "shape": [4, 6], "dtype": "float32", "axis": 0}], "steps": [{"op": "to_dtype", "args": [{"reg": 0}, {"lit": "bfloat16"}]}]},
+        {"operands": [act()], "steps": [{"op": "clone", "args": [{"reg": 0}]}]},
         {"operands": [act(tight=True)], "steps": [{"op": "neg", "args": [{"reg": 0}]}]},
         {"operands": [act(), act()], "steps": [{"op": "div_tensor", "args": [{"reg": 0}, {"reg": 1}]}]},
         {"operands": [act()], "steps": [{"op": "split", "args": [{"reg": 0}, {"lit": 1}]}, {"op": "pick", "args": [{"reg": 1}, {"lit": 1}]}]},
@@ -309,6 +329,8 @@ def run(pid, tier):
                             ck.violation("a dtype move did not change exactly the dtype of the scale", dict(ctx, meta=m))
                 if st.get("inputs_unchanged") is False:
                     ck.violation(f"{st['op']} modified the codes of one of its quantized operands", ctx)
+                if st.get("aliases_source_payload"):
+                    ck.violation(f"{st['op']} returns a quantized tensor that shares the payload storage of its source (a later in-place write to one changes the codes of the other)", ctx)
                 continue
             # ---- C05: value comparison by op class
             cmp_ = st.get("cmp", {})
